@@ -186,6 +186,16 @@ func (p *Prog) printerPriority(enumName string) (map[int64]int64, *ssa.Function,
 	return out, fn, nil
 }
 
+// documentedStratum: the precedence strata of the SQL/JSON path language as
+// documented (lowest binds loosest).
+var documentedStratum = map[string]int{
+	"BinaryOr": 1, "BinaryAnd": 2,
+	"BinaryEqual": 3, "BinaryNotEqual": 3, "BinaryLess": 3, "BinaryLessOrEqual": 3, "BinaryGreater": 3, "BinaryGreaterOrEqual": 3, "BinaryStartsWith": 3,
+	"BinaryAdd": 4, "BinarySub": 4,
+	"BinaryMul": 5, "BinaryDiv": 5, "BinaryMod": 5,
+	"UnaryPlus": 6, "UnaryMinus": 6,
+}
+
 var rulePrec = &Rule{
 	Name: "R-PREC", NeedSSA: true,
 	Doc: "the printer's priority table orders the operators exactly as the grammar does: || < && < comparisons/starts with (the predicate stratum: operands are expressions, results feed && and ||) < + − < * / % < unary ± — tokens are mapped to operator constants through the grammar actions, levels come from the %left/%right declarations",
@@ -224,10 +234,13 @@ var rulePrec = &Rule{
 			}
 			level := -1.0
 			for _, pr := range prods {
-				for _, t := range pr.Tokens {
-					if l, ok := g.Prec[t]; ok && t != "'('" && t != "')'" {
-						level = float64(l)
+				// yacc's rule: the production's %prec token, else its last
+				// terminal with a declared precedence
+				if l, tok := g.prodLevelTok(pr.N); l > 0 && tok != "'('" && tok != "')'" {
+					if level > 0 && level != float64(l) {
+						out.viol("productions of "+c.Name()+" share one precedence level", "path/parser/grammar.y", "", fmt.Sprintf("productions building %s have levels %.0f and %d", c.Name(), level, l))
 					}
+					level = float64(l)
 				}
 			}
 			lhs := g.Rules[prods[0].N].LHS
@@ -240,10 +253,29 @@ var rulePrec = &Rule{
 			}
 			ops = append(ops, lvl{c.Name(), level, bprio[constOf(c)]})
 		}
-		uminus := float64(g.Prec["UMINUS"])
+		if g.ProdPrecErr != "" {
+			out.undecided("%prec annotations", "path/parser/grammar.y", "", g.ProdPrecErr)
+			return out
+		}
+		// unary sign operators: the level of the productions that build them
+		// (their %prec annotation; without it, the level of the sign token,
+		// which is the binary operator's)
 		for _, n := range []string{"UnaryPlus", "UnaryMinus"} {
-			if c := ui.byName(n); c != nil && uminus > 0 {
-				ops = append(ops, lvl{n, uminus, uprio[constOf(c)]})
+			c := ui.byName(n)
+			if c == nil {
+				continue
+			}
+			level := 0
+			for _, pr := range g.prodsBuilding("UnaryNode", constOf(c)) {
+				if g.Rules[pr.N].LHS != "expr" {
+					continue // signs inside argument lists are not operators of the expression language
+				}
+				if l, tok := g.prodLevelTok(pr.N); l > level && tok != "'('" && tok != "')'" {
+					level = l
+				}
+			}
+			if level > 0 {
+				ops = append(ops, lvl{n, float64(level), uprio[constOf(c)]})
 			}
 		}
 		if debugExh {
@@ -266,6 +298,27 @@ var rulePrec = &Rule{
 				}
 			}
 		}
+		// the documented strata (PostgreSQL's jsonpath: || < && < comparison
+		// < additive < multiplicative < unary sign), by operator constant
+		ndoc := 0
+		for i := range ops {
+			for j := i + 1; j < len(ops); j++ {
+				a, b := ops[i], ops[j]
+				da, oka := documentedStratum[a.name]
+				db, okb := documentedStratum[b.name]
+				if !oka || !okb {
+					continue
+				}
+				ndoc++
+				if (a.level < b.level) != (da < db) || (a.level == b.level) != (da == db) {
+					nbad++
+					out.viol(fmt.Sprintf("grammar level of %s vs %s", a.name, b.name), "path/parser/grammar.y", "",
+						fmt.Sprintf("grammar levels %.1f vs %.1f but the documented strata are %d vs %d: expressions mixing the two nest differently from the documented precedence", a.level, b.level, da, db))
+				}
+			}
+		}
+		out.Counts["operator_pairs_against_documented_strata"] = ndoc
+		out.Floors["operator_pairs_against_documented_strata"] = 100
 		if nbad == 0 {
 			out.ok("printer priorities follow the grammar", p.pos(bfn.Pos()), fnName(bfn)+" / "+fnName(ufn), fmt.Sprintf("%d operators, all pairs ordered alike", len(ops)))
 		}
